@@ -35,8 +35,9 @@ static void c20_describe(const void *k, char *buf, size_t n) {
     snprintf(buf, n, "site=%s variant=%d size=%d dmax_rel=%d", site_name[c->site % S_NSITES], c->variant, c->size, c->dmax_rel);
 }
 
-static int h_calls;
+static int h_calls, h_mem_calls;
 static void ah(const char *m, void *p, errno_t e) { (void)m; (void)p; (void)e; h_calls++; }
+static void ah_mem(const char *m, void *p, errno_t e) { (void)m; (void)p; (void)e; h_calls++; h_mem_calls++; }
 
 /* one execution of the case; returns: 0 success, 1 failure indication; *cleared = dest cleared as for other violations */
 static wchar_t wbuf[4096], wsrc[600], wsrc2[600];
@@ -45,8 +46,8 @@ static int run_site(const acase_t *c, int *cleared, int *isfmt, int *fault) {
     int rc = 0;
     size_t i;
     *cleared = 1; *isfmt = 0; *fault = 0;
-    h_calls = 0;
-    set_str_constraint_handler_s(ah); set_mem_constraint_handler_s(ah);
+    h_calls = 0; h_mem_calls = 0;
+    set_str_constraint_handler_s(ah); set_mem_constraint_handler_s(ah_mem);
     memset(wbuf, 0x55, sizeof wbuf); memset(nbuf, 0x55, sizeof nbuf);
     switch (c->site) {
     case S_LS: case S_LS_BAD: case S_LONGDOUBLE: case S_HEXFLOAT: {
@@ -98,8 +99,9 @@ static int run_site(const acase_t *c, int *cleared, int *isfmt, int *fault) {
         wsrc[n] = 0;
         a_armed = 1;
         AR_GUARDED(
-            if (c->site == S_COMPOSE) { len = n; rc = _wcsnorm_compose_s_chk(wbuf, 1000, wsrc, &len, (c->variant & 2) != 0, BOS_UNKNOWN); }
-            else rc = wcsnorm_s(wbuf, 1000, wsrc, mode, &len);
+            /* dmax_rel 0: a dest too small for the pending marks, so that the no-space exits (which own heap blocks by then) run too */
+            if (c->site == S_COMPOSE) { len = n; rc = _wcsnorm_compose_s_chk(wbuf, c->dmax_rel ? 1000 : (rsize_t)(5 + (c->variant & 4)), wsrc, &len, (c->variant & 2) != 0, BOS_UNKNOWN); }
+            else rc = wcsnorm_s(wbuf, c->dmax_rel ? 1000 : (rsize_t)(6 + c->size), wsrc, mode, &len);
         );
         a_armed = 0;
         if (g_ar_fault.faulted) { *fault = 1; return 1; }
@@ -173,6 +175,11 @@ static void exec_c20(const void *k, res_t *r, const runcfg_t *cfg) {
         if (!failed) {
             RES_VIOL(r, "C20:%s:success-despite-failed-allocation:alloc-%d-of-%d", site_name[c->site], kf, A);
             RES_DETAIL(r, "allocation %d of %d failed but the call reported success", kf, A);
+            return;
+        }
+        if (h_mem_calls) { /* all sites are string-family functions: their reports belong to the string handler (judged by C13's check) */
+            RES_VIOL(r, "C20:%s:wrong-handler-kind:alloc-%d-of-%d", site_name[c->site], kf, A);
+            RES_DETAIL(r, "allocation %d of %d failed and the failure was dispatched to the handler registered for memory functions", kf, A);
             return;
         }
         if (!cleared) {
